@@ -19,7 +19,7 @@ from .. import units, guards, effects
 MANIFEST = {
     "level": "other",
     "technique": "static analysis: symbolic evaluation to terms and polynomial normal form with sin^2+cos^2=1, sin/cos(atan x) and sqrt(x)^2=x (ellipse identity, height terms, rp = a*rho*cos(phi'), curvature limits, symmetry of the distance formula), unit inference, guard dominance",
-    "text": "The ellipsoid identities named in the property are discharged symbolically for every latitude and for arbitrary (a, f), hence for both built-in ellipsoids; symmetry of the distance formula is shown by exchanging the two points in the symbolic result. Numerical statements (1e-4 agreement with the meridian integral, 0.6 % bound, behaviour for coincident points, parallax limits) are not decided.",
+    "text": "The ellipsoid identities named in the property are discharged symbolically for every latitude and for arbitrary (a, f), hence for both built-in ellipsoids; symmetry of the distance formula is shown by exchanging the two points in the symbolic result. Numerical statements (1e-4 agreement with the meridian integral, 0.6 % bound, parallax limits) are not decided; for coincident points the result is shown to fold to 0 with no identically vanishing divisor.",
     "note": "Trusted: term/polynomial engine incl. the atan and sqrt relations (valid for positive radicands); Ellipsoid fields are read through self._ellip. Undecided: curvature integral, 0.6 % bound, coincident points (0/0), parallax tending to zero.",
 }
 MOD = "Earth"
@@ -51,7 +51,8 @@ def lat_rad(t):
 def run(repo, rep, tier):
     rep.decided = ["D1 meridian ellipse, height terms, rp == a*rho*cos(phi'), omega*rp, b and e definitions, curvature at equator and pole",
                    "D2 distance symmetric", "D3 parallax constant, units, guards"]
-    rep.undecided = ["distance == meridian integral (1e-4)", "0.6 % of the great-circle distance", "coincident points", "parallax limits"]
+    rep.undecided = ["distance == meridian integral (1e-4)", "0.6 % of the great-circle distance", "parallax limits"]
+    rep.decided.append("D2b distance of coincident points is 0 (no identically vanishing divisor)")
     rep.assumptions = ["exact real arithmetic", "radicands positive"]
     rep.rule("R-E4-ID", "algebraic identity discharged by polynomial normal form")
     alg = Algebra()
@@ -117,16 +118,70 @@ def run(repo, rep, tier):
     names = [a.arg for a in fn.args.args]
     at = {names[1]: ("angle", T.sym("L1")), names[2]: ("angle", T.sym("P1")), names[3]: ("angle", T.sym("L2")), names[4]: ("angle", T.sym("P2"))}
     d = ret_term(repo, MOD, "Earth.distance", arg_terms=at)
-    if d[0] != "tuple":
+
+    def component(x, i):
+        """i-th element of a tuple-valued term (phi nodes are pushed inside)"""
+        if x[0] == "tuple" and len(x) > i + 1:
+            return x[i + 1]
+        if x[0] == "phi":
+            a, b = component(x[2], i), component(x[3], i)
+            return None if a is None or b is None else T.phi(x[1], a, b)
+        return None
+    d_first = component(d, 0)
+    if d_first is None:
         rep.violation("R-E4-ID", "Earth.Earth.distance", "shape", "does not return (distance, error)", obligation=True)
     else:
         swap = {T.sym("L1"): T.sym("L2"), T.sym("L2"): T.sym("L1"), T.sym("P1"): T.sym("P2"), T.sym("P2"): T.sym("P1")}
-        d2 = T.subst(d[1], swap)
+        d2 = T.subst(d_first, swap)
         from ..rules import even_norm
-        if even_norm(d[1]) == even_norm(d2):
+        if even_norm(d_first) == even_norm(d2):
             rep.ok("R-E4-ID", "Earth.Earth.distance", "distance(p1, p2) == distance(p2, p1): the symbolic results coincide after cos(-x) = cos(x), sin(-x)^2 = sin(x)^2", obligation=True)
         else:
             rep.violation("R-E4-ID", "Earth.Earth.distance", "symmetry", "the distance formula is not symmetric in its two points", obligation=True)
+    # D2b coincident points: no divisor vanishes identically, the distance is 0
+    rep.rule("R-SINGULAR", "on the input class where a formula is singular (coincident points) no divisor is identically zero and the stated value is returned")
+    same = {names[1]: ("angle", T.sym("LON")), names[2]: ("angle", T.sym("LAT")), names[3]: ("angle", T.sym("LON")), names[4]: ("angle", T.sym("LAT"))}
+    dz = component(ret_term(repo, MOD, "Earth.distance", arg_terms=same), 0)
+
+    def decide(c):
+        # a test `x == 0` / `x != 0` whose left side is identically zero on this input class is decided by the algebra
+        if c[0] == "cmp" and c[1] in ("Eq", "NotEq") and c[3] == T.ZERO:
+            try:
+                if alg.is_zero(c[2]):
+                    return c[1] == "Eq"
+            except Exception:
+                return None
+        return None
+    if dz is not None:
+        from ..rules import assume
+        dz = assume(dz, decide)
+    site = "Earth.Earth.distance[coincident]"
+    if dz is None:
+        rep.inconcl("R-SINGULAR", site, "result shape not understood")
+    else:
+        zero_div = None
+        for x in T.walk(dz):
+            if x[0] == "pow" and x[2][0] == "num" and x[2][1] < 0:
+                try:
+                    if alg.is_zero(x[1]):
+                        zero_div = x[1]
+                        break
+                except Exception:
+                    pass
+        if zero_div is not None:
+            rep.violation("R-SINGULAR", "Earth.Earth.distance", "coincident-zero-division",
+                          "for coincident points the divisor %s is identically zero: ZeroDivisionError instead of the distance 0" % T.show(zero_div)[:70], obligation=True)
+        else:
+            try:
+                is0 = dz == T.ZERO or alg.is_zero(dz)
+            except Exception:
+                is0 = None
+            if is0:
+                rep.ok("R-SINGULAR", site, "distance(p, p) folds to 0 (the singular case s == 0 is returned before any division)", obligation=True)
+            elif is0 is None:
+                rep.inconcl("R-SINGULAR", site, "value for coincident points not reduced: " + T.show(dz)[:80])
+            else:
+                rep.violation("R-SINGULAR", "Earth.Earth.distance", "coincident-nonzero", "distance(p, p) is not 0: " + T.show(dz)[:80], obligation=True)
     # D3 parallax constant
     for q in ("Earth.parallax_correction", "Earth.parallax_ecliptical"):
         rep.fn(MOD, q)
